@@ -84,6 +84,9 @@ def build_repo(root, layout, fsync):
         t3 = _tree(r, {b"a": b"three\n", b"c": b"sea\n"})
         c3 = _commit(r, t3, [c2], b"c3", 300)
         r.refs[b"refs/heads/master"] = c3
+        # an unreachable (orphan) commit with its own tree and blob
+        t4 = _tree(r, {b"orphan": b"nobody points here\n"})
+        _commit(r, t4, [c1], b"orphan", 350)
         # an unreachable loose object
         from dulwich.objects import Blob
         r.object_store.add_object(Blob.from_string(b"garbage\n"))
@@ -204,6 +207,20 @@ def loose_valid(path, name):
         return hashlib.sha1(raw).hexdigest() == name
     except Exception:
         return False
+
+
+def idx_names(path):
+    """object names listed by a pack index file (independent minimal parser, v1 and v2, SHA-1)."""
+    import struct
+    with open(path, "rb") as f:
+        d = f.read()
+    if d[:4] == b"\377tOc":
+        n = struct.unpack(">L", d[8 + 255 * 4:8 + 256 * 4])[0]
+        base = 8 + 1024
+        return [d[base + 20 * i:base + 20 * i + 20].hex() for i in range(n)]
+    n = struct.unpack(">L", d[255 * 4:256 * 4])[0]
+    base = 1024
+    return [d[base + 24 * i + 4:base + 24 * i + 24].hex() for i in range(n)]
 
 
 class Universe:
@@ -555,10 +572,7 @@ def run(ctx):
             for f in os.listdir(pd) if os.path.isdir(pd) else []:
                 if f.endswith(".idx") and f[:-4] not in U.pack_objs and os.path.exists(os.path.join(pd, f[:-4] + ".pack")):
                     try:
-                        from dulwich.pack import load_pack_index
-                        ix = load_pack_index(os.path.join(pd, f))
-                        U.pack_objs[f[:-4]] = sorted(U.o(x) for x in ix)
-                        ix.close()
+                        U.pack_objs[f[:-4]] = sorted(U.o(x) for x in idx_names(os.path.join(pd, f)))
                     except Exception:
                         pass
         tid += 1
